@@ -29,3 +29,50 @@ REG.add(Contract(F_CP, '_RawConfigParser.options', params=[('self', T.Obj('RawPa
     ensures=_options_post, post_names=['lists-exactly-the-own-keys'],
     raises_when=lambda v, old, exc: [z3.BoolVal(exc.cls == 'NoSectionError'), z3.Not(z3.Select(secs_has(v.self), v.section)), v.section != dsec(v.self)],
     on_raise=lambda v, old: [], carries=['post', 'raises'], props=['C15']))
+
+# ---------------------------------------------------------------- get(): the value of an option of the section ITSELF, place-holders resolved with [Variables] first (C15)
+from pyvc.core import Val
+REG.add_class(ClassDecl('<ext>', 'Interp', {}, external=True))           # configparser.ExtendedInterpolation
+REG.classes['RawParserImpl'].fields['_interpolation'] = T.Obj('Interp')
+defs_get = field('RawParserImpl', '_defaults.get', z3.ArraySort(StrS, StrS))
+KW = T.Dict(T.Str, T.Val)
+StrArr, StrMap = z3.ArraySort(StrS, BoolS), z3.ArraySort(StrS, StrS)
+interpolated = z3.Function('interpolated', StrS, StrArr, StrMap, StrS)      # A5: ExtendedInterpolation.before_get(value, lookup): ${NAME} replaced by lookup[NAME] (${SECTION:KEY} by that option); a function of the value and the lookup map
+base_get = z3.Function('configparser_get', RPI, StrS, StrS, Val)           # A5: RawConfigParser.get for the default section / a missing section
+REG.add(Contract('<ext>', 'Interp.before_get', params=[('self', T.Obj('Interp')), ('parser', T.Any), ('section', T.Str), ('option', T.Str), ('value', T.Str), ('defaults', KW if False else T.Dict(T.Str, T.Str))],
+    result=T.Str, ensures=lambda v, old, res: [res == interpolated(v.value, v.defaults.has, v.defaults.get)],
+    may_raise=lambda v: [('InterpolationError', z3.Bool('placeholder_cannot_be_resolved'))], external=True,
+    note='A5: ExtendedInterpolation.before_get(parser, section, option, value, lookup) substitutes the place-holders of value from the lookup mapping (a function of value and mapping), or raises an InterpolationError', props=['C15']))
+REG.add(Contract('<ext>', 'RawParserImpl.super.get', params=[('self', T.Obj('RawParserImpl')), ('section', T.Str), ('option', T.Str), ('kwargs', KW)], result=T.Val,
+    ensures=lambda v, old, res: [res == base_get(v.self, v.section, v.option)], may_raise=lambda v: [('NoSectionError', z3.Bool('base_no_section')), ('NoOptionError', z3.Bool('base_no_option')), ('InterpolationError', z3.Bool('base_interpolation_error'))],
+    external=True, note='A5: configparser.RawConfigParser.get for [Variables] itself or a missing section (NoSectionError / NoOptionError as documented)', props=['C15']))
+
+def sect(p, s): return z3.Select(secs_get(p), s)
+def chain_has(p, s): 
+    k = z3.String('k!ch')
+    return z3.Lambda([k], z3.Or(z3.Select(defs_has(p), k), z3.Select(IS.has(sect(p, s)), k)))
+def chain_get(p, s):
+    k = z3.String('k!cg')
+    return z3.Lambda([k], z3.If(z3.Select(defs_has(p), k), z3.Select(defs_get(p), k), z3.Select(IS.get(sect(p, s)), k)))
+FALLBACK, RAW = z3.StringVal('fallback'), z3.StringVal('raw')
+def val_true(x): return z3.Or(z3.And(Val.is_VI(x), Val.vi(x) != 0), z3.And(Val.is_VR(x), Val.vr(x) != 0), z3.And(Val.is_VS(x), z3.Length(Val.vs(x)) > 0))
+def _get_post(v, old, res):
+    p, s, k = v.self, v.section, nf(old.option); kw = v.kwargs
+    own_section = z3.And(s != dsec(p), z3.Select(secs_has(p), s))
+    raw = z3.And(z3.Select(kw.has, RAW), val_true(z3.Select(kw.get, RAW)))
+    value = z3.Select(IS.get(sect(p, s)), k)
+    return [z3.Implies(z3.Not(own_section), res == base_get(p, s, old.option)),
+            # the section does not define the option: only an explicit fallback is returned -- a variable of the same name does NOT stand in
+            z3.Implies(z3.And(own_section, z3.Not(own(p, s, k))), z3.And(z3.Select(kw.has, FALLBACK), res == z3.Select(kw.get, FALLBACK))),
+            z3.Implies(z3.And(own_section, own(p, s, k), raw), res == Val.VS(value)),
+            # place-holders: resolved against [Variables] first, then the section's own options
+            z3.Implies(z3.And(own_section, own(p, s, k), z3.Not(raw)), res == Val.VS(interpolated(value, chain_has(p, s), chain_get(p, s))))]
+def _get_raises(v, old, exc):
+    p, s, k = v.self, v.section, nf(old.option)
+    own_section = z3.And(s != dsec(p), z3.Select(secs_has(p), s))
+    if exc.origin is not None and 'super' in str(exc.origin): return [z3.Not(own_section)]
+    if exc.cls == 'NoOptionError': return [own_section, z3.Not(own(p, s, k)), z3.Not(z3.Select(v.kwargs.has, FALLBACK))]
+    return [z3.BoolVal(exc.cls == 'ConfigParserException'), own_section, own(p, s, k)]
+REG.add(Contract(F_CP, '_RawConfigParser.get', params=[('self', T.Obj('RawParserImpl')), ('section', T.Str), ('option', T.Str), ('kwargs', KW)], result=T.Val,
+    ensures=_get_post, post_names=['default-or-missing-section-as-configparser', 'an-undefined-option-is-not-supplied-by-a-variable', 'raw-value-of-the-own-option', 'placeholders-from-variables-first-then-own-options'],
+    raises_when=_get_raises, on_raise=lambda v, old: [], carries=['post', 'raises'], props=['C15']))
